@@ -3,6 +3,7 @@ package msghub
 import (
 	"container/ring"
 	"context"
+	"fmt"
 
 	"github.com/inbucket/inbucket/v3/pkg/extension"
 	"github.com/inbucket/inbucket/v3/pkg/extension/event"
@@ -75,7 +76,7 @@ func (hub *Hub) Dispatch(msg event.MessageMetadata) {
 
 			// Relay event to all listeners, removing listeners if they return an error.
 			for l := range h.listeners {
-				if err := l.Receive(msg); err != nil {
+				if err := safeReceive(l, msg); err != nil {
 					delete(h.listeners, l)
 				}
 			}
@@ -107,10 +108,30 @@ func (hub *Hub) Delete(mailbox string, id string) {
 
 		// Relay event to all listeners, removing listeners if they return an error.
 		for l := range h.listeners {
-			if err := l.Delete(mailbox, id); err != nil {
+			if err := safeDelete(l, mailbox, id); err != nil {
 				delete(h.listeners, l)
 			}
 		}
+	}
+}
+
+// safeReceive relays a message to a single listener.  A panic inside the listener, for example a
+// send on the channel of a listener that has just been closed, is returned as an error so that it
+// only costs that listener its registration instead of aborting the broadcast to all others.
+func safeReceive(l Listener, msg event.MessageMetadata) (err error) {
+	defer recoverListener(&err)
+	return l.Receive(msg)
+}
+
+// safeDelete is safeReceive for delete notifications.
+func safeDelete(l Listener, mailbox string, id string) (err error) {
+	defer recoverListener(&err)
+	return l.Delete(mailbox, id)
+}
+
+func recoverListener(err *error) {
+	if r := recover(); r != nil {
+		*err = fmt.Errorf("listener panicked: %v", r)
 	}
 }
 
